@@ -7,6 +7,7 @@
 //!        specs-harness conc-stress <file>          (real threads, predicate only)
 //!        specs-harness saveload <histories-file>        (specs::saveload, SimpleMarker)
 //!        specs-harness saveload-uuid <histories-file>   (specs::saveload, UuidMarker)
+//!        specs-harness unwind <histories-file>          (property C19: panicking destructors, see unwind.rs)
 //! output: one line per history, the outputs of the ops separated by " | ".
 mod comps;
 #[cfg(has_verif_sched)]
@@ -14,6 +15,7 @@ mod conc;
 mod dispatch;
 mod saveload;
 mod joins;
+mod unwind;
 mod world_exec;
 
 use std::io::{BufRead, Write};
@@ -49,6 +51,7 @@ fn main() {
             }
             "saveload" => saveload::run_history::<saveload::Simple>(&ints),
             "saveload-uuid" => saveload::run_history::<saveload::Uuid>(&ints),
+            "unwind" => unwind::run_history(&ints),
             d => panic!("unknown domain {}", d),
         };
         let parts: Vec<String> = tr
@@ -56,5 +59,9 @@ fn main() {
             .map(|o| o.iter().map(|x| x.to_string()).collect::<Vec<_>>().join(" "))
             .collect();
         writeln!(out, "{}", parts.join(" | ")).unwrap();
+        if args[1] == "unwind" {
+            // a history may abort the process (a second panic while unwinding): keep what was printed
+            out.flush().unwrap();
+        }
     }
 }
